@@ -177,9 +177,16 @@ def chain_traces_1d(rng, quick):
                     K = len(W)
                     N = K * S * (2 if K * S < 200 else 1)
                     us = lattice(N)
+                    N_alias, us_alias = N, us
                     for method in SamplingMethod:
                         if method == SamplingMethod.BINARYSEARCHTREEADAPTED:
                             continue        # n-d only (the factory refuses it for a 1-d model)
+                        # thresholds of the alias construction are multiples of 1/(K S); all others of 1/S
+                        if method in (SamplingMethod.ALIAS, SamplingMethod.TABLE):
+                            N, us = N_alias, us_alias
+                        else:
+                            N = S * (4 if S < 400 else 2)
+                            us = lattice(N)
                         hdr = {"method": "chain1d:" + method.name, "W": W, "N": N, "slack": 0, "shape": [nl, nr, lvl]}
                         ev = []
                         try:
@@ -216,6 +223,8 @@ def chain_traces_1d(rng, quick):
                         traces.append({"tid": f"c{len(traces)}", "hdr": hdr, "ev": ev})
                     # the inversion sampler with a small storage cap: draws beyond the stored prefix restart the
                     # enumeration; the law must not depend on the history of such draws
+                    N = S * (4 if S < 400 else 2)
+                    us = lattice(N)
                     for cap in (2, 5):
                         hdr = {"method": f"chain1d:INVERSION:cap{cap}", "W": W, "N": N, "slack": 0, "shape": [nl, nr, lvl]}
                         ev = []
@@ -271,7 +280,7 @@ def chain_traces_nd(rng, quick):
             S, K = sum(W), len(W)
             if S == 0:
                 continue
-            N = K * S
+            N = S * (4 if S < 200 else 2)      # thresholds of both n-d samplers are multiples of 1/S
             us = lattice(N)
             for method in (SamplingMethod.BINARYSEARCHTREEADAPTED, SamplingMethod.INVERSION):
                 hdr = {"method": f"chain{d}d:" + method.name, "W": W, "N": N, "slack": 0, "shape": [d, nl, nr]}
